@@ -144,7 +144,7 @@ impl GatewayBinder {
                 J::String(t) => t.parse().unwrap_or(1),
                 x => x.as_u64().unwrap_or(1),
             },
-            t0: scale["t0"].as_u64().unwrap_or(1_000_000),
+            t0: if scale["t0"] == json!("top") { u64::MAX - 1000 } else { scale["t0"].as_u64().unwrap_or(1_000_000) },
             now: init["now"].as_u64().unwrap_or(0),
             owner: jstr(init, "owner"),
             operator: jstr(init, "operator"),
@@ -235,6 +235,7 @@ impl GatewayBinder {
             let len = p["len"].as_u64().unwrap() as usize;
             match p["kind"].as_str().unwrap_or("ascii") {
                 "utf8" => "\u{00e9}\u{4e2d}\u{1F600}x".chars().cycle().take(len).collect(),
+                "mixed" => " Ab-Z_9/x.Y\u{0}q~ Q\t".chars().cycle().take(len).collect(),
                 _ => "abcdefghijklmnopqrstuvwxyz0123456789".chars().cycle().take(len).collect(),
             }
         } else {
